@@ -16,7 +16,7 @@ import (
 func init() {
 	register(&RuleSet{
 		ID: "C03",
-		Explanation: "R11 (= C02.R1 on verify.SNP) a measurement listed for a configuration is the one the verifier compares a launch with that configuration against. " +
+		Explanation: "R11 (= C02.R1 on verify.SNP, C02.R5 collection) a measurement listed for a configuration is the one the verifier compares a launch with that configuration against; the TDX policy's allow-list is collected from every listed row. " +
 			"R10 (= C06.R13) the provenance the request names (ClSpec, Commit) is stored into the signed document on every successful path. " +
 			"R9 the CLI's output back end (IO.Create implementations of gcetcbendorsement/cmd) opens files replacing their contents (os.Create / os.WriteFile / O_TRUNC): re-emitted signed pieces carry no stale tail. " +
 			"R1 same bytes: in endorse.SignDoc the bytes stored in the endorsement's SerializedUefiGolden and the operand of the SHA-256 whose result is signed are one SSA value, the result of the single proto.Marshal of the document; the signature stored is Signer.Sign's result; the verification core never re-serialises (C01.R1b). " +
@@ -41,7 +41,9 @@ func runC03(c *Ctx) {
 	// R11 = C02.R1: "every measurement it lists is accepted for its configuration" — when the launch VMSA count is
 	// named, verify.SNP accepts only after comparing the reported measurement with the entry listed for that count
 	// (an SVSM measurement stands in for the count 1 only), and refuses only when that entry is absent or differs.
-	c.borrow("R11/C02.", runC02, func(rule, construct string) bool { return rule == "R1" && strings.Contains(construct, "verify.SNP") })
+	c.borrow("R11/C02.", runC02, func(rule, construct string) bool {
+		return (rule == "R1" && strings.Contains(construct, "verify.SNP")) || (rule == "R5" && strings.Contains(construct, "collection exhaustive"))
+	})
 	// R9: what the inspection commands emit (payload, signature, certificate) are the stored signed bytes: the CLI's
 	// output back end (in-repo implementations of the IO interface's Create in gcetcbendorsement/cmd) replaces an
 	// existing file wholly — a shorter re-emission over a longer file must not keep the old tail, or the emitted
